@@ -489,9 +489,25 @@ func (w *World) solve(obls []*Obligation, timeoutMs int, thorough bool, stats *S
 			stats.PerBackend[o.Solver]++
 			continue
 		}
+		if o.Cover && o.Status == "unsat" {
+			continue // a definite answer: this path is infeasible (the cover group needs one feasible instance)
+		}
+		if o.Cover && (o.Status == "unknown" || o.Status == "timeout") {
+			// a cover only has to rule out a contradictory context: anything but `unsat` is acceptable
+			// (quantified assumptions often make the solver give up on building a model)
+			o.Status = "sat"
+			o.Output = "solver answered unknown; not unsat, so the context is not shown contradictory"
+			stats.PerBackend[o.Solver+"(cover:not-unsat)"]++
+			continue
+		}
 		hard = append(hard, o)
 	}
 	solvers := []string{"z3-new", "z3", "cvc5"}
+	if os.Getenv("GOVC_SLOW") != "" {
+		for _, o := range hard {
+			fmt.Printf("SLOW %s (%s) batch status %s\n", o.Name, o.Kind, o.Status)
+		}
+	}
 	for _, o := range hard {
 		wg.Add(1)
 		sem <- struct{}{}
